@@ -32,6 +32,7 @@ def build(pc, E, canary=None):
     if canary is not None:
         return
     bounded_report(pc, E)
+    bounded_reservoir(pc, E)
     pc.assumptions += ['floats (durations, timestamps) are opaque', 'random.random() is in [0, 1)',
                        'a content_type attribute of an exception, when present, is a str',
                        'attribute tables of Response / HTTPException instances by reflection of the installed Werkzeug']
@@ -75,3 +76,39 @@ def fallback(pc):
     return [{'script': 'mw_case.py', 'case': {'mw': 'stats', 'requests': REQS}},
             {'script': 'reservoir_case.py', 'case': {'ops': [['new', 2], ['add', 3], ['resize', 10], ['add', 40]]}},
             {'script': 'reservoir_case.py', 'case': {'ops': [['new', 10], ['add', 3], ['resize', 5], ['add', 40]]}}]
+
+
+RESERVOIR_OPS = [
+    [['new', 1], ['add', 50]],                                   # the smallest capacity is a capacity, not a flag
+    [['new', 2], ['add', 3], ['resize', 10], ['add', 40]],       # grow after filling
+    [['new', 10], ['add', 3], ['resize', 5], ['add', 40]],       # shrink above the fill level, then fill
+    [['new', 8], ['add', 30], ['resize', 3], ['add', 30], ['resize', 6], ['add', 30]],
+    [['new', 3], ['resize', 1], ['add', 9]],
+]
+
+
+def bounded_reservoir(pc, E):
+    """bounded stand-in (labelled bounded): Reservoir.__init__ (capacity flags) is not under contract; fixed
+    add/resize sequences are replayed natively: never more samples than the capacity, exact total count, only
+    added values stored, no exception"""
+    import json
+    import os
+    from pyvc.run import native, HERE
+    bad = None
+    for ops in RESERVOIR_OPS:
+        try:
+            out = native('reservoir_case.py', {'ops': ops}, repo_root=E.repo.root)
+        except Exception as e:
+            pc.errors.append('bounded stand-in (reservoir) crashed: %r' % (e,))
+            return
+        if out.get('fails') and bad is None:
+            bad = (ops, out)
+    pc.bounded.append({'what': 'Reservoir add/resize sequences incl. capacity 1 and shrink-above-fill-level', 'bound': 'fixed list',
+                       'cases': len(RESERVOIR_OPS), 'failures': 1 if bad else 0, 'label': 'bounded'})
+    if bad:
+        fn = 'replays/C19-bounded-reservoir.json'
+        os.makedirs(os.path.join(HERE, 'replays'), exist_ok=True)
+        with open(os.path.join(HERE, fn), 'w') as f:
+            json.dump({'property': 'C19', 'obligation': 'C19.B/reservoir (bounded stand-in)',
+                       'concretised_input': {'script': 'reservoir_case.py', 'case': {'ops': bad[0]}}, 'native_observation': bad[1]}, f, indent=1)
+        pc.violations.append(('C19.B/reservoir', fn, True))
